@@ -1,6 +1,6 @@
 #!/bin/sh
-# seedall.sh [--verify] — run every seeded change against its property's quick check, one after the other
+# seedall.sh [-P n] [seedcheck args] — run every seeded change against its property's quick check (n at a time, default 4)
 root=$(dirname "$(dirname "$(readlink -f "$0")")")
-for d in "$root"/seeded/C*; do
-  "$root/tools/seedsum.sh" "$(basename "$d")" "$@" 2>&1 | tail -1 | cut -c1-300
-done
+par=4
+if [ "$1" = "-P" ]; then par=$2; shift 2; fi
+ls "$root/seeded" | xargs -P "$par" -I{} sh -c "\"$root/tools/seedsum.sh\" {} $* 2>&1 | tail -1 | cut -c1-300"
